@@ -7,6 +7,7 @@ from .. import impl_versioning as IV
 from .. import objects as O
 
 ROLE_NAMES = ["name", "description", "aliases"]
+REPO_TESTS = None       # the whole suite: about 225 versioning calls, ten seconds
 
 
 def ch_pairs(ch):
@@ -154,6 +155,20 @@ def run(chk):
                 report(chk, part[r[0] - 1], r[2], "S2" if i + r[0] - 1 < len(lines2) else "S3")
                 rejected.add(i + r[0] - 1)
         chk.sample({"trace_line": lines[-1]})
+        # ---- S3b: the repository's own tests as drivers (calls recorded from outside by harness/record_plugin.py, projected onto the object record)
+        rl, summ = common.repo_test_traces(chk, ["versioning"], select=REPO_TESTS)
+        vl = rl["versioning"]
+        for r in common.validate_trace(chk, "Trace_Versioning", "Trace_VersioningRepo", [{k: v for k, v in x.items() if k != "test"} for x in vl], "S3b_repo_tests") if vl else []:
+            ln = vl[r[0] - 1]
+            chk.violation({"entry": "new_version" if ln["op"]["k"] != "revoke" else "revoke", "case": "%s %s %s %s (repository test)" % (r[2], ln["pre"]["v"], ln["pre"]["kind"], ln["op"]["k"])},
+                          {"line": ln, "clause": r[2], "recorded_from_repository_test": ln.get("test")}, "S3b")
+        for ln in vl:
+            chk.case(["repo", ln["pre"]["v"], ln["pre"]["kind"], ln["type"], ln["op"]["k"], len(ln["changed"]), ln["exc"]])
+        chk.stages["S3b_repo_tests"] = dict(chk.stages.get("S3b_repo_tests", {}), recorded_calls=len(vl), tests_passed_under_recording=summ["tests_passed_under_recording"],
+                                            recorder_errors=summ["recorder_errors"],
+                                            calls_outside_model={k.split("outside_model:")[1]: v for k, v in summ["counts"].items() if "outside_model:" in k})
+        if len(vl) < 50:
+            chk.machinery("the recording run of the repository tests produced only %d versioning calls" % len(vl))
         # ---- S4
         good = [x for i, x in enumerate(lines) if x["ok"] and x["op"]["k"] == "new" and i not in rejected][:40]
         bad = [json.loads(json.dumps(x)) for x in good]
